@@ -81,15 +81,25 @@ func (a *kAggregate) Next(ctx context.Context) ([]model.StepVector, error) {
 	if err != nil {
 		return nil, err
 	}
-	if in == nil {
-		return nil, nil
+	if in != nil {
+		defer a.next.GetPool().PutVectors(in)
 	}
-
-	defer a.next.GetPool().PutVectors(in)
 
 	args, err := a.paramOp.Next(ctx)
 	if err != nil {
 		return nil, err
+	}
+	// The parameter is validated at every step, also when there is no input
+	// left to aggregate: an invalid k fails the query even over empty data.
+	if in == nil {
+		for i := range args {
+			if len(args[i].Samples) > 0 && !convertibleToInt64(args[i].Samples[0]) {
+				return nil, errors.Newf("Scalar value %v overflows int64", args[i].Samples[0])
+			}
+			a.paramOp.GetPool().PutStepVector(args[i])
+		}
+		a.paramOp.GetPool().PutVectors(args)
+		return nil, nil
 	}
 	for i := range a.params {
 		a.params[i] = math.NaN()
